@@ -237,9 +237,7 @@ func init() {
 				if !ok || idTest != nil {
 					return
 				}
-				if b, isB := iff.Cond.(*ssa.BinOp); isB && (isNilConst(b.X) || isNilConst(b.Y)) && strings.HasSuffix(strings.TrimSuffix(term(b.X), " == nil")+term(b.Y), ".IDnil") {
-					idTest = iff
-				} else if isB && strings.Contains(term(b), ".ID") && strings.Contains(term(b), "nil") {
+				if b, isB := iff.Cond.(*ssa.BinOp); isB && (isNilConst(b.X) || isNilConst(b.Y)) && strings.Contains(term(b), ".ID") {
 					idTest = iff
 				}
 			})
